@@ -196,6 +196,8 @@ def adaptive_case(draw):
                 st.tuples(st.just("tick"), st.sampled_from([1, 2, 4, 16, 64, 256])),
                 st.tuples(st.just("tick_window"), st.sampled_from([-1, 0, 1])),
                 st.tuples(st.just("call"), st.one_of(st.sampled_from([0.0, 0.5, 1.0, 1e300]), st.floats(0, 1e300))),
+                st.tuples(st.just("set_bounds"), st.sampled_from([1.0, 1.5, 3.0]), st.sampled_from([0.0, 1.0, 2.5])),  # (min, max - min) assigned on the live object
+                st.tuples(st.just("set_target"), st.sampled_from([1.0, 0.9, 0.5, 0.1])),
             ),
             min_size=1,
             max_size=40,
@@ -242,6 +244,13 @@ def check_adaptive(case: dict) -> Verdict:
                 a.record_failure(ErrorClass.TRANSIENT)
                 events.append((now[0], False))
                 last_event_t = now[0]
+            elif op[0] == "set_bounds":
+                a.min_multiplier = op[1]
+                a.max_multiplier = op[1] + op[2]
+                case = {**case, "min": op[1], "max": op[1] + op[2]}
+            elif op[0] == "set_target":
+                a.target_success = op[1]
+                case = {**case, "target": op[1]}
             elif op[0] == "tick":
                 now[0] += op[1] / 64
             elif op[0] == "tick_window":
